@@ -38,9 +38,9 @@ func jitter(seed int64) func(simnet.Link) {
 }
 
 func unitC20core(e common.Env, p *common.Part) {
-	p.Rule = "race-detector build; real Loud/Silent schemes with scripted backends on the simulated network in concurrent mode (one dispatcher goroutine per link, PRNG micro-delays of 20..150 us and yields); scenarios: staggered first calls (peers' traffic reaches a node before and while its first KeyGen/Sign sets up), duplicated transmissions, 2-3 sessions at once on different topics, SetStoredData followed by Sign from another goroutine, cancelled sessions followed by new ones; repeated because reports vary per run; distinct key = (scenario, repetition, delivery-order hash); non-trivial when >=2 dispatcher goroutines were active"
+	p.Rule = "race-detector build; real Loud/Silent schemes with scripted backends on the simulated network in concurrent mode (one dispatcher goroutine per link, PRNG micro-delays of 20..150 us and yields); scenarios: staggered first calls (peers' traffic reaches a node before and while its first KeyGen/Sign sets up), duplicated transmissions, 2-3 sessions at once on different topics, SetStoredData followed by Sign from another goroutine, cancelled sessions followed by new ones, the synchronisation traffic of a finished key generation re-sent continuously from its origins while further key generations start (stale queries and announcements with valid tags reach a node before and while its Synchronize sets up); repeated because reports vary per run; distinct key = (scenario, repetition, delivery-order hash); non-trivial when >=2 dispatcher goroutines were active"
 	reps := e.Pick(12, 120)
-	scen := []string{"staggered-keygen-loud", "staggered-keygen-silent", "sign-concurrent-topics", "duplicates", "setdata-then-sign", "cancel-then-retry", "msgbox-with-ticking-clock"}
+	scen := []string{"staggered-keygen-loud", "staggered-keygen-silent", "sign-concurrent-topics", "duplicates", "setdata-then-sign", "cancel-then-retry", "msgbox-with-ticking-clock", "stale-sync-flood-loud", "stale-sync-flood-silent"}
 	idx := 0
 	for r := 0; r < reps; r++ {
 		for _, sc := range scen {
@@ -71,7 +71,7 @@ func runC20core(sc string, rep int, rng *rand.Rand) (string, int) {
 	for i := 1; i <= n; i++ {
 		ids = append(ids, uint16(i))
 	}
-	silent := sc == "staggered-keygen-silent" || (sc == "sign-concurrent-topics" && rep%2 == 1)
+	silent := sc == "staggered-keygen-silent" || sc == "stale-sync-flood-silent" || (sc == "sign-concurrent-topics" && rep%2 == 1)
 	c := cluster.New(cluster.Config{Map: identityMapC(ids), Silent: silent, Threshold: n - 1, Script: backend.Script{Rounds: []uint8{1, 2}, Bcast: true, P2P: true}, FastBoxClock: 150 * time.Microsecond})
 	c.Net.KeepData = false
 	c.Net.Jitter = jitter(rng.Int63())
@@ -150,6 +150,77 @@ func runC20core(sc string, rep int, rng *rand.Rand) (string, int) {
 		}()
 		<-done
 		sign(ctx, fmt.Sprintf("sd-%d", rep))
+	case "stale-sync-flood-loud", "stale-sync-flood-silent":
+		// the synchronisation traffic of a first key generation is captured and re-sent over and over (from its original
+		// origins: the tags stay valid, the topic of a key generation is a constant) while further key generations start
+		type rec struct {
+			src uint16
+			o   simnet.Outgoing
+		}
+		var cmu sync.Mutex
+		var captured []rec
+		capturing := int32(1)
+		for _, u := range ids {
+			c.Net.SetInterceptor(u, func(nw *simnet.Net, src uint16, typ uint8, topic, data []byte, dsts []uint16) []simnet.Outgoing {
+				var o []simnet.Outgoing
+				for _, d := range dsts {
+					o = append(o, simnet.Outgoing{Dst: d, Type: typ, Topic: topic, Data: data})
+				}
+				if typ == uint8(tss.MsgTypeSync) && atomic.LoadInt32(&capturing) == 1 {
+					cmu.Lock()
+					for _, d := range dsts {
+						if len(captured) < 400 {
+							captured = append(captured, rec{src, simnet.Outgoing{Dst: d, Type: typ, Topic: append([]byte{}, topic...), Data: append([]byte{}, data...), Tag: "stale-sync"}})
+						}
+					}
+					cmu.Unlock()
+				}
+				return o
+			})
+		}
+		c1, cn1 := context.WithTimeout(ctx, 1500*time.Millisecond)
+		keygen(c1)
+		cn1()
+		atomic.StoreInt32(&capturing, 0)
+		cmu.Lock()
+		stale := append([]rec{}, captured...)
+		cmu.Unlock()
+		stop := make(chan struct{})
+		var fw sync.WaitGroup
+		for _, u := range ids {
+			u := u
+			fw.Add(1)
+			go func() {
+				defer fw.Done()
+				for {
+					for _, r := range stale {
+						if r.src != u {
+							continue
+						}
+						select {
+						case <-stop:
+							return
+						default:
+						}
+						c.Net.Inject(r.src, r.o)
+						time.Sleep(25 * time.Microsecond)
+					}
+					select {
+					case <-stop:
+						return
+					default:
+						time.Sleep(50 * time.Microsecond)
+					}
+				}
+			}()
+		}
+		for k := 0; k < 4; k++ {
+			cx, cn := context.WithTimeout(ctx, 250*time.Millisecond)
+			keygen(cx)
+			cn()
+		}
+		close(stop)
+		fw.Wait()
 	case "cancel-then-retry":
 		cx, cn := context.WithCancel(ctx)
 		cd := time.Duration(rng.Intn(3000)) * time.Microsecond
